@@ -61,12 +61,14 @@ func (r *RelationTuple) ToProto() *rts.RelationTuple {
 }
 
 func (r *RelationTuple) FromProto(proto *rts.RelationTuple) *RelationTuple {
+	// The getters are nil-safe: an absent tuple or subject yields a tuple
+	// without subject, which fails validation instead of panicking.
 	r = &RelationTuple{
-		Namespace: proto.Namespace,
-		Object:    proto.Object,
-		Relation:  proto.Relation,
+		Namespace: proto.GetNamespace(),
+		Object:    proto.GetObject(),
+		Relation:  proto.GetRelation(),
 	}
-	switch subject := proto.Subject.Ref.(type) {
+	switch subject := proto.GetSubject().GetRef().(type) {
 	case *rts.Subject_Id:
 		r.SubjectID = pointerx.Ptr(subject.Id)
 	case *rts.Subject_Set:
